@@ -39,6 +39,8 @@ type Result struct {
 	Stderr   []byte
 	TimedOut bool
 	Signal   string
+	// SignalSent: the requested signal was delivered before the process had exited
+	SignalSent bool
 }
 
 type Cmd struct {
@@ -49,6 +51,10 @@ type Cmd struct {
 	Timeout    time.Duration
 	Dir        string
 	Env        []string
+	// SignalAfter > 0: Signal is sent to the process that long after it started (a ^C, a supervisor's TERM, a
+	// pipeline being torn down) - a fault at an arbitrary instant of a one-shot command
+	SignalAfter time.Duration
+	Signal      syscall.Signal
 }
 
 // Run executes one CLI step as a fresh process.
@@ -74,8 +80,18 @@ func Run(c Cmd) Result {
 	cmd.Stdin = bytes.NewReader(c.Stdin)
 	var so, se bytes.Buffer
 	cmd.Stdout, cmd.Stderr = &so, &se
-	err := cmd.Run()
-	r := Result{Stdout: so.Bytes(), Stderr: se.Bytes()}
+	var err error
+	sent := false
+	if c.SignalAfter > 0 {
+		if err = cmd.Start(); err == nil {
+			tm := time.AfterFunc(c.SignalAfter, func() { cmd.Process.Signal(c.Signal) })
+			err = cmd.Wait()
+			sent = !tm.Stop()
+		}
+	} else {
+		err = cmd.Run()
+	}
+	r := Result{Stdout: so.Bytes(), Stderr: se.Bytes(), SignalSent: sent}
 	if ctx.Err() == context.DeadlineExceeded {
 		r.TimedOut = true
 	}
